@@ -256,6 +256,29 @@ func c14Run(c *Ctx) {
 			}
 		}
 	}
+	// unparenthesised mixed || / && chains: the grouping decides which operands run at all
+	chain := []string{"%0 || %1 && %2", "%0 && %1 || %2", "%0 || %1 || %2 && %3", "%0 && %1 || %2 && %3", "%0 || %1 && %2 || %3", "! %0 || %1 && ! %2"}
+	for _, tmpl := range chain {
+		for _, sp := range [][2]string{{"||", "&&"}, {K["or"], K["and"]}, {"||", K["and"]}} {
+			t := strings.ReplaceAll(strings.ReplaceAll(tmpl, "||", "\x01"), "&&", "\x02")
+			t = strings.ReplaceAll(strings.ReplaceAll(t, "\x01", sp[0]), "\x02", sp[1])
+			n := strings.Count(tmpl, "%")
+			for mask := 0; mask < 1<<uint(n); mask++ {
+				e := t
+				for i := 0; i < n; i++ {
+					v := fmt.Sprintf("%d", i+1)
+					if mask>>uint(i)&1 == 1 {
+						v = []string{"0", "nil", `""`, False()}[i%4]
+					}
+					e = strings.ReplaceAll(e, fmt.Sprintf("%%%d", i), fmt.Sprintf(`p("L%d", %s)`, i, v))
+				}
+				src := pre + Print(e) + "\n"
+				if c.Mine() {
+					c14Judge(c, &Case{Gen: "logical-chains", Src: src, X: map[string]string{"form": "logical-chain"}})
+				}
+			}
+		}
+	}
 	// hand-written order cases the forms do not express
 	for _, src := range []string{
 		pre + Lines(Var("arr", "[0, 0, 0]"), Var("k", "0"), "arr[k = 2] = k + 5;", Print("arr"), Print("k")),
@@ -286,7 +309,7 @@ func init() {
 		Run:         c14Run,
 		Judge:       c14Judge,
 		MustCount: func(c *Ctx) []string {
-			out := []string{"gen:forms-depth1", "gen:forms-depth2", "gen:forms-depth3-random", "gen:truthiness-falsy", "gen:truthiness-truthy", "cli_runs", "clean"}
+			out := []string{"gen:forms-depth1", "gen:forms-depth2", "gen:logical-chains", "gen:forms-depth3-random", "gen:truthiness-falsy", "gen:truthiness-truthy", "cli_runs", "clean"}
 			for _, f := range c14Forms() {
 				out = append(out, "form:"+f.name)
 			}
